@@ -272,7 +272,7 @@ func runC32(c *fw.Ctx) {
 	var treeIdx []int
 	for i, m := range e.trees {
 		n := bits.OnesCount(uint(m))
-		if c.Thorough() || n >= 5 || (n == 2 && m&1 != 0) {
+		if c.Thorough() || n == 6 || (n == 2 && m&1 != 0) {
 			treeIdx = append(treeIdx, i)
 		}
 	}
@@ -280,7 +280,7 @@ func runC32(c *fw.Ctx) {
 	var cases [][]int
 	for _, ti := range treeIdx {
 		for si := range e.sels {
-			for fr := 0; fr < dims[2]; fr++ {
+			for fr := 0; fr < c.Pick(3, dims[2]); fr++ {
 				for op := 0; op < dims[3]; op++ {
 					for tg := 0; tg < 2; tg++ {
 						cases = append(cases, []int{ti, si, fr, op, tg})
@@ -296,7 +296,7 @@ func runC32(c *fw.Ctx) {
 	c.Bound("from_states", c32From)
 	c.Bound("ops", c32Ops)
 	c.Bound("cases", len(cases))
-	c.SetRule("trees = subsets of 6 paths (quick: full, 5-subsets, pairs with a/x; thorough: all 63) x all 31 non-empty subsets of 5 directories x from-state (fresh clone / full checkout / two earlier sparse sets made by go-git) x {Checkout, Checkout Force, Reset Hard, Reset Merge} x target {same commit, other commit with other contents}; after a successful op the on-disk files, the skip-worktree flags read by `git ls-files -t` and `git status` are compared with the component-wise membership predicate; refused operations (e.g. selected directory not in the tree) are counted as classes, not judged; non-trivial = op succeeded; distinct counts (files inside, files tracked, from, op)")
+	c.SetRule("trees = subsets of 6 paths (quick: the full tree and the pairs with a/x; thorough: all 63) x all 31 non-empty subsets of 5 directories x from-state (fresh clone / full checkout / earlier sparse set [a] / thorough also [b a.b], made by go-git) x {Checkout, Checkout Force, Reset Hard, Reset Merge} x target {same commit, other commit with other contents}; after a successful op the on-disk files, the skip-worktree flags read by `git ls-files -t` and `git status` are compared with the component-wise membership predicate; refused operations (e.g. selected directory not in the tree) are counted as classes, not judged; non-trivial = op succeeded; distinct counts (files inside, files tracked, from, op)")
 	c.Assume("the statement's predicate (path == d or path starts with d + '/') is the specification; git's cone mode (which always keeps root files) is NOT the oracle; git ls-files -t decodes the skip-worktree bit")
 
 	if v := hDevVec(); v != nil {
